@@ -82,7 +82,12 @@ class Engine:
 
   def __init__(self, solver_timeout_ms=30000, max_paths=200000,
                max_decisions=600, wall_budget_s=None, oneshot_checks=False,
-               logic=None):
+               logic=None, shard=None):
+    # shard=(s, D): explore only the paths whose first D two-sided forks take
+    # the outcomes given by the bits of s (paths with fewer forks belong to
+    # the shard whose remaining bits are 0): an exact partition of the tree.
+    self.shard = shard
+    self._nforks = 0
     self.solver_timeout_ms = solver_timeout_ms
     self.max_paths = max_paths
     self.max_decisions = max_decisions
@@ -176,13 +181,21 @@ class Engine:
       self._add(c if v else z3.Not(c))
       return v
     rt, _ = self._check(c)
-    rf, _ = self._check(z3.Not(c))
+    if rt == 'unsat':
+      rf = 'sat'  # the path condition is satisfiable, so the other side is
+    else:
+      rf, _ = self._check(z3.Not(c))
     if rt == 'unknown' or rf == 'unknown':
       raise Inconclusive('solver unknown on branch feasibility')
     if rt == 'sat' and rf == 'sat':
       self.stats.forks += 1
-      self._work.append(self._trace + [False])
-      v = True
+      if self.shard is not None and self._nforks < self.shard[1]:
+        v = bool((self.shard[0] >> self._nforks) & 1)
+        self._nforks += 1
+      else:
+        self._nforks += 1
+        self._work.append((self._trace + [False], self._nforks))
+        v = True
     elif rt == 'sat':
       v = True
     elif rf == 'sat':
@@ -238,7 +251,7 @@ class Engine:
     if r == 'sat':
       self.stats.forks += 1
       nxt = m.eval(e, model_completion=True).as_long()
-      self._work.append(self._trace + [(nxt, excl)])
+      self._work.append((self._trace + [(nxt, excl)], self._nforks))
 
   def reach(self, name):
     self.stats.reached[name] = self.stats.reached.get(name, 0) + 1
@@ -331,7 +344,7 @@ class Engine:
     """Runs harness(engine) once per feasible path."""
     prev = Engine.current
     Engine.current = self
-    self._work = [[]]
+    self._work = [([], 0)]
     t0 = time.time()
     try:
       while self._work:
@@ -343,7 +356,12 @@ class Engine:
               f'wall budget {self.wall_budget_s}s reached with '
               f'{len(self._work)} prefixes left')
           break
-        self._prefix = self._work.pop()
+        self._prefix, self._nforks = self._work.pop()
+        saved = None
+        if self.shard is not None:
+          import copy
+          saved = (copy.deepcopy(self.stats), len(self.violations),
+                   len(self.inconclusive))
         self._trace = []
         self._pc = []
         self._fresh = 0
@@ -353,6 +371,13 @@ class Engine:
         self._solver.set('timeout', self.solver_timeout_ms)
         try:
           harness(self)
+          if saved is not None and self._nforks < self.shard[1] and (
+              self.shard[0] >> self._nforks):
+            # path has fewer than D forks and belongs to another shard
+            self.stats = saved[0]
+            del self.violations[saved[1]:]
+            del self.inconclusive[saved[2]:]
+            continue
           self.stats.paths += 1
           self.stats.max_depth = max(self.stats.max_depth, len(self._trace))
           if len(self.stats.samples) < 4:
